@@ -227,8 +227,15 @@ def pointer_order(rep: Report, prog: Program) -> None:
     pcfg = cfg_of(prod)
     rparam = [p for p in prod.positional_params() if p == 'rule']
     R = rparam[0] if rparam else prod.positional_params()[1]
-    loops = [x for x in own_nodes(prod.node) if isinstance(x, ast.For) and norm(x.iter) == f"{R}.rhs.edges()"]
-    rep.floor('C04-D3 producer loop', len(loops), 1)
+    cand = [x for x in own_nodes(prod.node) if isinstance(x, ast.For) and any(isinstance(c, ast.Call) and callee_last(c) == 'edges' for c in ast.walk(x.iter))
+            and any(isinstance(c, ast.Call) and callee_last(c) == 'append' and c.args and norm(c.args[0]).endswith('.nodes') for c in ast.walk(x))]
+    rep.floor('C04-D3 producer loop', len(cand), 1)
+    for lp in cand:
+        direct = norm(lp.iter) == f"{R}.rhs.edges()"
+        rep.ob(rule, prod.fq(), f"producer iterates {norm(lp.iter)[:70]}", prod.loc(lp), direct,
+               'the einsum operands are listed in the order of rule.rhs.edges(), the order the consumer walks' if direct else
+               'the producer reorders / filters the edges: the first-appearance order of the summed-out nodes no longer matches the order in which reconstruct() consumes the pointer')
+    loops = [x for x in cand if norm(x.iter) == f"{R}.rhs.edges()"]
     for lp in loops:
         e = norm(lp.target)
         hdr = pcfg.node_of(lp)
